@@ -478,7 +478,13 @@ func (b *Bezier) Polygon() (*Polygon, error) {
 	}
 	// render the splines to a polygon
 	p := NewPolygon()
-	n = len(splines)
+	// the last spline that is a curve (point splines are skipped)
+	last := -1
+	for i, s := range splines {
+		if s.px.n != 0 || s.py.n != 0 {
+			last = i
+		}
+	}
 	for i, s := range splines {
 		if s.px.n == 0 && s.py.n == 0 {
 			// This is a point, not a curve. Skip it.
@@ -487,8 +493,8 @@ func (b *Bezier) Polygon() (*Polygon, error) {
 		// Add the spline vertices
 		// the curve ends in its end control points, the polynomial only to within rounding
 		s.Sample(p, 0, 1, s.p0, s.p1, 0)
-		if i != n-1 {
-			// drop the last vertex since it is the first vertex of the next spline
+		if i != last {
+			// drop the last vertex since it is the first vertex of the next sampled spline
 			p.Drop()
 		}
 	}
